@@ -158,7 +158,8 @@ impl Wait for YieldingWait {
         }
         loop {
             yield_now();
-            for _ in 0..self.spins_yield {
+            // look at least once per round, also when configured with zero yield spins
+            for _ in 0..self.spins_yield.max(1) {
                 if check(seq, w_pos, wc) {
                     return;
                 }
